@@ -185,6 +185,11 @@ type Cron struct {
 
 	// The approximate maximum number pending jobs.
 	Limit int
+
+	// running holds the recurring jobs whose Fn is executing.  They are
+	// not on the Timeline then, but Rem (and an Add that replaces
+	// the job) must still find them: see rem and reschedule.
+	running []*CronJob
 }
 
 // NewCron creates a new Cron instanced.
@@ -204,7 +209,8 @@ func NewCron(broadcaster *CronBroadcaster, pause time.Duration, name string, lim
 		time.Now(),
 		pause,
 		name,
-		limit}
+		limit,
+		nil}
 
 	return c, nil
 }
@@ -352,6 +358,9 @@ LOOP:
 				if ready {
 					// Danger.  ToDo: Be more careful
 					c.Timeline = c.Timeline[1:]
+					if !job.Once() {
+						c.running = append(c.running, job)
+					}
 					go func(job *CronJob) {
 						c.run(ctx, job)
 					}(job)
@@ -390,8 +399,29 @@ func (c *Cron) run(ctx *core.Context, job *CronJob) {
 	if once {
 	} else {
 		// ToDo: Consider an error here.
-		c.schedule(ctx, job, false)
+		c.reschedule(ctx, job)
 	}
+}
+
+// reschedule puts a recurring job back on the timeline after its Fn
+// has returned, unless the job was removed (or replaced by an Add for
+// the same id) while Fn was running: rem has taken it off c.running
+// then, and the job is dropped.
+func (c *Cron) reschedule(ctx *core.Context, job *CronJob) {
+	core.Log(core.INFO|CRON, ctx, "Cron.reschedule", "job", *job, "name", c.Name)
+	next := job.Expression.Next(time.Now().UTC())
+	c.Lock()
+	for at, running := range c.running {
+		if running == job {
+			copy(c.running[at:], c.running[at+1:])
+			c.running[len(c.running)-1] = nil
+			c.running = c.running[0 : len(c.running)-1]
+			job.Next = next
+			c.insert(ctx, job)
+			break
+		}
+	}
+	c.Unlock()
 }
 
 func (c *Cron) stopTimer() {
@@ -557,8 +587,17 @@ func (c *Cron) rem(ctx *core.Context, id string) (bool, error) {
 			break
 		}
 	}
-	if !found {
-		// log.Printf("Cron.Rem %p %s job %s not found", c, c.Name, id)
+	// A recurring job is not on the timeline while its Fn runs.
+	// Forget it, so that reschedule does not put it back when Fn
+	// returns.
+	for at, job := range c.running {
+		if job.Id == id {
+			copy(c.running[at:], c.running[at+1:])
+			c.running[len(c.running)-1] = nil
+			c.running = c.running[0 : len(c.running)-1]
+			found = true
+			break
+		}
 	}
 	return found, nil
 }
